@@ -18,7 +18,7 @@ RULE = ("random autograd programs (1-5 leaves of 11 shapes incl. 0-d, 1-8 nodes 
 ASSUMPTIONS = ["torch.autograd row-by-row VJPs on a twin graph are the true Jacobian (cross-checked against central "
                "finite differences on smooth programs in the thorough tier)",
                "graphs without retain_grad() tensors (documented limitation)"]
-N = {"quick": 1600, "thorough": 200000}
+N = {"quick": 1600, "thorough": 600000}
 STABLE = {"Constant", "Mean", "Sum", "TrimmedMean", "UPGrad", "DualProj"}
 LINEAR = {"Constant", "Mean", "Sum"}
 PROXY_INNER = ["Constant", "Constant", "Mean", "Sum", "UPGrad", "DualProj", "MGDA", "Krum", "TrimmedMean", "AlignedMTL",
